@@ -385,8 +385,8 @@ def run(tier, seed):
         tl = 240
     else:
         cases = [(d, t, tr) for d in (2, 3, 4) for t in ('center', 'direct', 'regular') for tr in range(1, d + 1)]
-        cases += [(5, t, tr) for t in ('center', 'direct', 'regular') for tr in (1, 2, 4)]
-        tl = 1500
+        cases += [(5, 'center', 4), (5, 'direct', 4), (5, 'regular', 2)]
+        tl = 700
     cases = [c for c in cases if c[2] >= 1]
     ck.bounds = {'columns d': sorted({c[0] for c in cases}), 'vine types': ['center', 'direct', 'regular'],
                  'truncation': 'see samples', 'tau': 'any symmetric matrix with entries in [-1,1], ties allowed'}
